@@ -365,7 +365,8 @@ func TestChildWorker(t *testing.T) {
 			res := w.runCase(c, time.Second, 10*time.Second)
 			b, _ := json.Marshal(res)
 			fmt.Println("RES " + string(b))
-			if len(res.Hangs) > 0 && i+1 < to {
+			if spinning(res.HangStacks) && i+1 < to {
+				// a stuck call that is still running (not parked) burns CPU and memory: start afresh
 				fmt.Println("CHILD-RESTART")
 				os.Exit(0)
 			}
@@ -397,7 +398,7 @@ func TestChildWorker(t *testing.T) {
 			res := w.runCase(c, 20*time.Second, 100*time.Second)
 			b, _ := json.Marshal(res)
 			fmt.Println("RES " + string(b))
-			if len(res.Hangs) > 0 {
+			if spinning(res.HangStacks) {
 				fmt.Println("CHILD-RESTART")
 				os.Exit(0)
 			}
@@ -515,6 +516,18 @@ func classifyHang(target string, stacks []string) string {
 		return "http-precancelled-hang"
 	}
 	return ""
+}
+
+// spinning reports whether one of the stuck goroutines is running rather
+// than parked.
+func spinning(stacks []string) bool {
+	for _, g := range stacks {
+		head := strings.SplitN(g, "\n", 2)[0]
+		if strings.Contains(head, "[running") || strings.Contains(head, "[runnable") {
+			return true
+		}
+	}
+	return false
 }
 
 // blockedIn reports whether some goroutine in state `state` has frame fn.
